@@ -9,10 +9,13 @@
    - canonical representations are unique, so ==, < on canonical points coincide with =, < on
      the denoted nanosecond values; < is a strict total order there.
    - += / -= of a 100ns-tick duration are exact and inverse to each other.
-   - operator-(tp,tp) is exact on the 100ns grid; off the grid it is within one tick of the
-     truth but it is NOT truncation toward zero of the true difference
-     (diff_not_trunc_refuted): it truncates the nanosecond-field difference, so the result is
-     rounded toward -oo when ns a >= ns b and toward +oo when ns a < ns b. *)
+   - operator-(tp,tp) AS WRITTEN BEFORE THE FIX (diff_w) is exact on the 100ns grid; off the
+     grid it is within one tick of the truth but it is NOT truncation toward zero of the true
+     difference (diff_not_trunc_refuted): it truncates the nanosecond-field difference, so
+     the result is rounded toward -oo when ns a >= ns b and toward +oo when ns a < ns b.
+   - operator-(tp,tp) of the current code (diff, repo commit 69a85c3) IS the true difference
+     truncated toward zero on canonical points (diff_trunc), so b + (a - b) never overshoots
+     a (add_diff_le). *)
 From Coq Require Import ZArith Bool Lia.
 From V Require Import Arith.MonoClockDefs.
 Local Open Scope Z_scope.
@@ -271,51 +274,51 @@ Proof.
 Qed.
 
 (* ------------------------------------------------------------------------------------- *)
-(* operator-(time_point, time_point)                                                     *)
+(* operator-(time_point, time_point) AS WRITTEN BEFORE THE FIX: diff_w                   *)
 
 (* Exact relation, for ALL a b (canonical or not): the only loss is the truncating division
    of the nanosecond-FIELD difference. *)
-Theorem diff_exact :
-  forall a b, 100 * diff a b = (value a - value b) - Z.rem (ns a - ns b) 100.
+Theorem diff_w_exact :
+  forall a b, 100 * diff_w a b = (value a - value b) - Z.rem (ns a - ns b) 100.
 Proof.
-  intros [sa na] [sb nb]. unfold diff, value. cbn [sec ns]. unfold_consts. lia.
+  intros [sa na] [sb nb]. unfold diff_w, value. cbn [sec ns]. unfold_consts. lia.
 Qed.
 
-Theorem diff_error_bound :
-  forall a b, Z.abs (100 * diff a b - (value a - value b)) < 100.
-Proof. intros a b. rewrite diff_exact. lia. Qed.
+Theorem diff_w_error_bound :
+  forall a b, Z.abs (100 * diff_w a b - (value a - value b)) < 100.
+Proof. intros a b. rewrite diff_w_exact. lia. Qed.
 
 (* Direction of the error: toward -oo when ns a >= ns b, toward +oo when ns a <= ns b.
-   Together with the bound: diff is the floor in the first case, the ceiling in the second. *)
-Theorem diff_error_direction :
+   Together with the bound: diff_w is the floor in the first case, the ceiling in the second. *)
+Theorem diff_w_error_direction :
   forall a b,
-    (ns b <= ns a -> 100 * diff a b <= value a - value b < 100 * diff a b + 100) /\
-    (ns a <= ns b -> 100 * diff a b - 100 < value a - value b <= 100 * diff a b).
-Proof. intros a b. pose proof (diff_exact a b) as E. split; intros H; lia. Qed.
+    (ns b <= ns a -> 100 * diff_w a b <= value a - value b < 100 * diff_w a b + 100) /\
+    (ns a <= ns b -> 100 * diff_w a b - 100 < value a - value b <= 100 * diff_w a b).
+Proof. intros a b. pose proof (diff_w_exact a b) as E. split; intros H; lia. Qed.
 
-Corollary diff_floor_or_ceil :
+Corollary diff_w_floor_or_ceil :
   forall a b,
-    (ns b <= ns a -> diff a b = (value a - value b) / 100) /\
-    (ns a <= ns b -> diff a b = - ((value b - value a) / 100)).
+    (ns b <= ns a -> diff_w a b = (value a - value b) / 100) /\
+    (ns a <= ns b -> diff_w a b = - ((value b - value a) / 100)).
 Proof.
-  intros a b. destruct (diff_error_direction a b) as [H1 H2]. split; intros H.
+  intros a b. destruct (diff_w_error_direction a b) as [H1 H2]. split; intros H.
   - specialize (H1 H).
-    apply Z.div_unique with (r := value a - value b - 100 * diff a b); lia.
+    apply Z.div_unique with (r := value a - value b - 100 * diff_w a b); lia.
   - specialize (H2 H). apply Z.opp_inj. rewrite Z.opp_involutive.
-    apply Z.div_unique with (r := value b - value a + 100 * diff a b); lia.
+    apply Z.div_unique with (r := value b - value a + 100 * diff_w a b); lia.
 Qed.
 
 (* On the 100ns grid (in particular for everything reachable from one grid point by += / -=)
    the difference is exact. *)
-Theorem diff_exact_on_grid :
+Theorem diff_w_exact_on_grid :
   forall a b, Z.rem (ns a) 100 = 0 -> Z.rem (ns b) 100 = 0 ->
-    100 * diff a b = value a - value b.
-Proof. intros a b Ha Hb. rewrite diff_exact. lia. Qed.
+    100 * diff_w a b = value a - value b.
+Proof. intros a b Ha Hb. rewrite diff_w_exact. lia. Qed.
 
 (* More generally: exact iff the two nanosecond fields are congruent modulo 100. *)
-Theorem diff_exact_iff :
-  forall a b, 100 * diff a b = value a - value b <-> Z.rem (ns a - ns b) 100 = 0.
-Proof. intros a b. rewrite diff_exact. lia. Qed.
+Theorem diff_w_exact_iff :
+  forall a b, 100 * diff_w a b = value a - value b <-> Z.rem (ns a - ns b) 100 = 0.
+Proof. intros a b. rewrite diff_w_exact. lia. Qed.
 
 Theorem add_dur_aligned :
   forall t d, Z.rem (ns t) 100 = 0 -> Z.rem (ns (add_dur t d)) 100 = 0.
@@ -336,48 +339,48 @@ Proof.
 Qed.
 
 (* (t + d) - t = d, for every t (canonical or not) and every d. *)
-Theorem diff_add_any : forall t d, diff (add_dur t d) t = d.
+Theorem diff_w_add_any : forall t d, diff_w (add_dur t d) t = d.
 Proof.
   intros t d. destruct (add_dur_value_any t d) as [V _].
-  pose proof (diff_exact (add_dur t d) t) as E.
+  pose proof (diff_w_exact (add_dur t d) t) as E.
   unfold value in V, E. unfold_consts. lia.
 Qed.
 
-Theorem diff_add : forall t d, canonical t -> diff (add_dur t d) t = d.
-Proof. intros t d _. apply diff_add_any. Qed.
+Theorem diff_w_add : forall t d, canonical t -> diff_w (add_dur t d) t = d.
+Proof. intros t d _. apply diff_w_add_any. Qed.
 
-Theorem diff_sub_any : forall t d, diff t (sub_dur t d) = d.
+Theorem diff_w_sub_any : forall t d, diff_w t (sub_dur t d) = d.
 Proof.
   intros t d. destruct (sub_dur_value_any t d) as [V _].
-  pose proof (diff_exact t (sub_dur t d)) as E.
+  pose proof (diff_w_exact t (sub_dur t d)) as E.
   unfold value in V, E. unfold_consts. lia.
 Qed.
 
-Theorem diff_self : forall a, diff a a = 0.
-Proof. intros a. pose proof (diff_exact a a). lia. Qed.
+Theorem diff_w_self : forall a, diff_w a a = 0.
+Proof. intros a. pose proof (diff_w_exact a a). lia. Qed.
 
-Theorem diff_antisym : forall a b, diff a b = - diff b a.
+Theorem diff_w_antisym : forall a b, diff_w a b = - diff_w b a.
 Proof.
-  intros [sa na] [sb nb]. unfold diff. cbn [sec ns]. unfold_consts. lia.
+  intros [sa na] [sb nb]. unfold diff_w. cbn [sec ns]. unfold_consts. lia.
 Qed.
 
 (* The sign of the difference never contradicts the order (it may be 0 for distinct points
    less than a tick apart). *)
-Theorem diff_sign :
+Theorem diff_w_sign :
   forall a b,
-    (diff a b < 0 -> value a < value b) /\
-    (0 < diff a b -> value b < value a) /\
-    (value a = value b -> diff a b = 0).
-Proof. intros a b. pose proof (diff_exact a b) as E. repeat split; intros H; lia. Qed.
+    (diff_w a b < 0 -> value a < value b) /\
+    (0 < diff_w a b -> value b < value a) /\
+    (value a = value b -> diff_w a b = 0).
+Proof. intros a b. pose proof (diff_w_exact a b) as E. repeat split; intros H; lia. Qed.
 
-(* diff is monotone in its first argument on canonical points, in spite of the mixed
+(* diff_w is monotone in its first argument on canonical points, in spite of the mixed
    rounding direction. *)
-Theorem diff_mono :
+Theorem diff_w_mono :
   forall a a' b, canonical a -> canonical a' ->
-    value a <= value a' -> diff a b <= diff a' b.
+    value a <= value a' -> diff_w a b <= diff_w a' b.
 Proof.
   intros [sa na] [sa' na'] [sb nb] Ca Ca' V.
-  unfold canonical, value, diff in *. cbn [sec ns] in *. unfold_consts. lia.
+  unfold canonical, value, diff_w in *. cbn [sec ns] in *. unfold_consts. lia.
 Qed.
 
 (* REFUTED: operator- is not "true difference truncated toward zero" (what duration_cast of
@@ -385,7 +388,7 @@ Qed.
    difference is 999'999'999ns = 9'999'999.99 ticks, truncation gives 9'999'999, the code
    returns 10'000'000. *)
 Theorem diff_not_trunc_refuted :
-  exists a b, canonical a /\ canonical b /\ diff a b <> Z.quot (value a - value b) 100.
+  exists a b, canonical a /\ canonical b /\ diff_w a b <> Z.quot (value a - value b) 100.
 Proof.
   exists (mk_tp 1 0), (mk_tp 0 1).
   split; [apply canonicalb_iff; vm_compute; reflexivity|].
@@ -393,10 +396,10 @@ Proof.
   intro H. vm_compute in H. discriminate H.
 Qed.
 
-(* It is not the floor either (same witness; by diff_floor_or_ceil it is the ceiling there),
+(* It is not the floor either (same witness; by diff_w_floor_or_ceil it is the ceiling there),
    nor the ceiling: a = (0s, 1ns), b = (1s, 0ns) gives the floor -10'000'000 of -9'999'999.99. *)
 Theorem diff_not_floor_refuted :
-  exists a b, canonical a /\ canonical b /\ diff a b <> (value a - value b) / 100.
+  exists a b, canonical a /\ canonical b /\ diff_w a b <> (value a - value b) / 100.
 Proof.
   exists (mk_tp 1 0), (mk_tp 0 1).
   split; [apply canonicalb_iff; vm_compute; reflexivity|].
@@ -405,7 +408,7 @@ Proof.
 Qed.
 
 Theorem diff_not_ceil_refuted :
-  exists a b, canonical a /\ canonical b /\ diff a b <> - ((value b - value a) / 100).
+  exists a b, canonical a /\ canonical b /\ diff_w a b <> - ((value b - value a) / 100).
 Proof.
   exists (mk_tp 0 1), (mk_tp 1 0).
   split; [apply canonicalb_iff; vm_compute; reflexivity|].
@@ -415,12 +418,208 @@ Qed.
 
 (* Exactly when it agrees with truncation: the true difference and the nanosecond-field
    difference do not have strictly opposite signs, or nothing is lost. *)
-Theorem diff_trunc_iff :
+Theorem diff_w_trunc_iff :
   forall a b,
-    diff a b = Z.quot (value a - value b) 100 <->
+    diff_w a b = Z.quot (value a - value b) 100 <->
     (Z.rem (ns a - ns b) 100 = 0 \/
      (0 <= value a - value b /\ 0 <= ns a - ns b) \/
      (value a - value b <= 0 /\ ns a - ns b <= 0)).
 Proof.
-  intros a b. pose proof (diff_exact a b) as E. split; intros H; lia.
+  intros a b. pose proof (diff_w_exact a b) as E. split; intros H; lia.
+Qed.
+
+(* ------------------------------------------------------------------------------------- *)
+(* operator-(time_point, time_point), CURRENT code (repo commit 69a85c3): diff           *)
+
+(* The three-way case split of diff, with the branch conditions as propositions. *)
+Lemma diff_cases :
+  forall a b,
+    let s := sec a - sec b in
+    let n := ns a - ns b in
+    (0 < s /\ n < 0 /\
+     diff a b = (s - 1) * ticks_per_sec + Z.quot (n + ns_per_sec) ns_per_tick) \/
+    (s < 0 /\ 0 < n /\
+     diff a b = (s + 1) * ticks_per_sec + Z.quot (n - ns_per_sec) ns_per_tick) \/
+    (~ (0 < s /\ n < 0) /\ ~ (s < 0 /\ 0 < n) /\
+     diff a b = s * ticks_per_sec + Z.quot n ns_per_tick).
+Proof.
+  intros a b s n. unfold diff. fold s. fold n.
+  destruct (0 <? s) eqn:H1; destruct (n <? 0) eqn:H2;
+    destruct (s <? 0) eqn:H3; destruct (0 <? n) eqn:H4; cbn [andb];
+    rewrite ?Z.ltb_lt, ?Z.ltb_ge in H1, H2, H3, H4;
+    try (left; repeat split; (lia || reflexivity));
+    try (right; left; repeat split; (lia || reflexivity));
+    right; right; repeat split; try reflexivity; lia.
+Qed.
+
+Ltac diff_by_cases a b :=
+  let A := fresh "A" in let B := fresh "B" in let E := fresh "E" in
+  destruct (diff_cases a b) as [[A [B E]] | [[A [B E]] | [A [B E]]]];
+  rewrite E; clear E.
+
+(* Weakest natural hypothesis: whenever the seconds fields differ, the nanosecond fields do
+   not differ by more than a second in the OPPOSITE direction (then the single fix-up makes
+   the signs of the two parts agree).  It follows from canonicity of both points
+   (diff_trunc) and, independently, from |ns a - ns b| <= 10^9 (diff_trunc_ns_bound);
+   some hypothesis is needed (diff_trunc_needs_hyp). *)
+Theorem diff_trunc_gen :
+  forall a b,
+    (0 < sec a - sec b -> - ns_per_sec <= ns a - ns b) ->
+    (sec a - sec b < 0 -> ns a - ns b <= ns_per_sec) ->
+    diff a b = Z.quot (value a - value b) 100.
+Proof.
+  intros [sa na] [sb nb] H1 H2. unfold value. cbn [sec ns] in *.
+  diff_by_cases (mk_tp sa na) (mk_tp sb nb); cbn [sec ns] in *; unfold_consts; lia.
+Qed.
+
+Theorem diff_trunc :
+  forall a b, canonical a -> canonical b -> diff a b = Z.quot (value a - value b) 100.
+Proof.
+  intros a b Ca Cb. apply diff_trunc_gen; unfold canonical in *; unfold_consts; lia.
+Qed.
+
+Theorem diff_trunc_ns_bound :
+  forall a b, Z.abs (ns a - ns b) <= ns_per_sec ->
+    diff a b = Z.quot (value a - value b) 100.
+Proof. intros a b H. apply diff_trunc_gen; unfold_consts; lia. Qed.
+
+(* Without any hypothesis the fixed operator- still is not truncation: a = (2s, -10^9-1 ns)
+   (not canonical), b = 0: true difference 999'999'999ns, result 10'000'000 ticks. *)
+Theorem diff_trunc_needs_hyp :
+  exists a b, diff a b <> Z.quot (value a - value b) 100.
+Proof.
+  exists (mk_tp 2 (-1000000001)), (mk_tp 0 0).
+  intro H. vm_compute in H. discriminate H.
+Qed.
+
+(* The witness that refutes truncation for the as-written operator is repaired. *)
+Theorem diff_fixes_witness :
+  diff (mk_tp 1 0) (mk_tp 0 1) = 9999999 /\ diff_w (mk_tp 1 0) (mk_tp 0 1) = 10000000.
+Proof. split; vm_compute; reflexivity. Qed.
+
+(* The remaining properties hold for ALL a b (canonical or not). *)
+Theorem diff_error_bound :
+  forall a b, Z.abs (100 * diff a b - (value a - value b)) < 100.
+Proof.
+  intros [sa na] [sb nb]. unfold value. cbn [sec ns].
+  diff_by_cases (mk_tp sa na) (mk_tp sb nb); cbn [sec ns] in *; unfold_consts; lia.
+Qed.
+
+Theorem diff_exact_iff :
+  forall a b, 100 * diff a b = value a - value b <-> Z.rem (ns a - ns b) 100 = 0.
+Proof.
+  intros [sa na] [sb nb]. unfold value. cbn [sec ns].
+  diff_by_cases (mk_tp sa na) (mk_tp sb nb); cbn [sec ns] in *; unfold_consts; lia.
+Qed.
+
+Theorem diff_exact_on_grid :
+  forall a b, Z.rem (ns a) 100 = 0 -> Z.rem (ns b) 100 = 0 ->
+    100 * diff a b = value a - value b.
+Proof. intros a b Ha Hb. apply diff_exact_iff. lia. Qed.
+
+(* (t + d) - t = d, for every t (canonical or not) and every d. *)
+Theorem diff_add_any : forall t d, diff (add_dur t d) t = d.
+Proof.
+  intros t d. destruct (add_dur_value_any t d) as [V _].
+  assert (E : 100 * diff (add_dur t d) t = value (add_dur t d) - value t).
+  { apply diff_exact_iff. unfold value in V. unfold_consts. lia. }
+  lia.
+Qed.
+
+Theorem diff_add : forall t d, canonical t -> diff (add_dur t d) t = d.
+Proof. intros t d _. apply diff_add_any. Qed.
+
+Theorem diff_sub_any : forall t d, diff t (sub_dur t d) = d.
+Proof.
+  intros t d. destruct (sub_dur_value_any t d) as [V _].
+  assert (E : 100 * diff t (sub_dur t d) = value t - value (sub_dur t d)).
+  { apply diff_exact_iff. unfold value in V. unfold_consts. lia. }
+  lia.
+Qed.
+
+Theorem diff_sub : forall t d, canonical t -> diff t (sub_dur t d) = d.
+Proof. intros t d _. apply diff_sub_any. Qed.
+
+Theorem diff_self : forall a, diff a a = 0.
+Proof. intros a. pose proof (diff_error_bound a a). lia. Qed.
+
+Theorem diff_antisym : forall a b, diff a b = - diff b a.
+Proof.
+  intros [sa na] [sb nb].
+  diff_by_cases (mk_tp sa na) (mk_tp sb nb);
+    diff_by_cases (mk_tp sb nb) (mk_tp sa na); cbn [sec ns] in *; unfold_consts; lia.
+Qed.
+
+Theorem diff_sign :
+  forall a b,
+    (diff a b < 0 -> value a < value b) /\
+    (0 < diff a b -> value b < value a) /\
+    (value a = value b -> diff a b = 0).
+Proof. intros a b. pose proof (diff_error_bound a b) as E. repeat split; intros H; lia. Qed.
+
+(* and now also conversely, on canonical points, up to the tick resolution *)
+Theorem diff_sign_iff :
+  forall a b, canonical a -> canonical b ->
+    (diff a b < 0 <-> value a - value b <= -100) /\
+    (0 < diff a b <-> 100 <= value a - value b) /\
+    (diff a b = 0 <-> -100 < value a - value b < 100).
+Proof.
+  intros a b Ca Cb. rewrite (diff_trunc a b Ca Cb). lia.
+Qed.
+
+(* b need not be canonical *)
+Theorem diff_mono :
+  forall a a' b, canonical a -> canonical a' ->
+    value a <= value a' -> diff a b <= diff a' b.
+Proof.
+  intros [sa na] [sa' na'] [sb nb] Ca Ca' V.
+  unfold canonical, value in *. cbn [sec ns] in *.
+  diff_by_cases (mk_tp sa na) (mk_tp sb nb);
+    diff_by_cases (mk_tp sa' na') (mk_tp sb nb); cbn [sec ns] in *; unfold_consts; lia.
+Qed.
+
+(* b + (a - b) lands between b and a, less than one tick short of a: it never overshoots. *)
+Theorem add_diff_le :
+  forall a b, canonical a -> canonical b ->
+    canonical (add_dur b (diff a b)) /\
+    (value b <= value a ->
+       value b <= value (add_dur b (diff a b)) <= value a) /\
+    (value a <= value b ->
+       value a <= value (add_dur b (diff a b)) <= value b) /\
+    Z.abs (value a - value (add_dur b (diff a b))) < 100.
+Proof.
+  intros a b Ca Cb. destruct (add_dur_value_any b (diff a b)) as [V C].
+  split; [exact C|]. rewrite V, (diff_trunc a b Ca Cb). lia.
+Qed.
+
+Theorem add_diff_lt_not_after :
+  forall a b, canonical a -> canonical b -> value b <= value a ->
+    lt a (add_dur b (diff a b)) = false.
+Proof.
+  intros a b Ca Cb H. destruct (add_diff_le a b Ca Cb) as [C [H1 _]].
+  destruct (lt a (add_dur b (diff a b))) eqn:E; [|reflexivity].
+  apply lt_iff in E; [|exact Ca | exact C]. specialize (H1 H). lia.
+Qed.
+
+(* The as-written operator did overshoot: b + (a - b) > a for a = (1s,0ns), b = (0s,1ns). *)
+Theorem add_diff_w_overshoots :
+  exists a b, canonical a /\ canonical b /\ value b <= value a /\
+    lt a (add_dur b (diff_w a b)) = true.
+Proof.
+  exists (mk_tp 1 0), (mk_tp 0 1).
+  split; [apply canonicalb_iff; vm_compute; reflexivity|].
+  split; [apply canonicalb_iff; vm_compute; reflexivity|].
+  split; [vm_compute; discriminate | vm_compute; reflexivity].
+Qed.
+
+(* on canonical points diff and diff_w agree exactly when no fix-up is needed or nothing is
+   lost *)
+Theorem diff_eq_diff_w_iff :
+  forall a b, canonical a -> canonical b ->
+    (diff a b = diff_w a b <->
+     (Z.rem (ns a - ns b) 100 = 0 \/
+      ~ ((0 < sec a - sec b /\ ns a - ns b < 0) \/ (sec a - sec b < 0 /\ 0 < ns a - ns b)))).
+Proof.
+  intros [sa na] [sb nb] Ca Cb. unfold diff_w, canonical in *. cbn [sec ns] in *.
+  diff_by_cases (mk_tp sa na) (mk_tp sb nb); cbn [sec ns] in *; unfold_consts; lia.
 Qed.
